@@ -76,6 +76,7 @@ type PredDef struct {
 	Body   *Node
 	Pkg    string
 	Rec    bool // recursive spec function: uninterpreted symbol + defining axiom
+	Unfold bool // no global defining axiom: one unfolding per application that the contracts mention
 }
 
 type GuardedBy struct {
@@ -258,6 +259,11 @@ func (db *SpecDB) readFile(path, repo string) {
 			cur = nil
 			db.Envs[rest] = curEnv
 		case "pred", "spec", "rec":
+			unfold := false
+			if kw == "rec" && strings.HasPrefix(rest, "unfold ") {
+				unfold = true
+				rest = strings.TrimSpace(strings.TrimPrefix(rest, "unfold "))
+			}
 			pd, err := parsePredDef(rest)
 			if err != nil {
 				fail(err)
@@ -265,6 +271,7 @@ func (db *SpecDB) readFile(path, repo string) {
 			}
 			pd.Pkg = pkg
 			pd.Rec = kw == "rec"
+			pd.Unfold = unfold
 			db.Preds[pd.Name] = pd
 		case "guarded_by":
 			parts := strings.SplitN(rest, ":", 2)
